@@ -586,6 +586,10 @@ func (c *cbComp) Run(h *hlib.History) ([]hlib.Mon, bool) {
 		cbreaker.FallbackDuration(time.Duration(fb)), cbreaker.RecoveryDuration(time.Duration(recD)),
 		cbreaker.CheckPeriod(time.Duration(cp)), cbreaker.OnTripped(r.onTripped), cbreaker.OnStandby(r.onStandby),
 		cbreaker.Fallback(fallback)}
+	if t0%3 == 0 { // verbose breakers log more and decide the same, from the first request on
+		cbOpts = append(cbOpts, cbreaker.Verbose(true))
+		hlib.Count("verbose_breakers", 1)
+	}
 	if (fb+cp)%2 != 0 { // the order in which options are given means nothing
 		for i, j := 0, len(cbOpts)-1; i < j; i, j = i+1, j-1 {
 			cbOpts[i], cbOpts[j] = cbOpts[j], cbOpts[i]
@@ -1002,7 +1006,7 @@ func genExpr(rng *rand.Rand, depth int, nlat *int64) *ex {
 		e.metric = 2
 		e.k = *nlat
 		*nlat++
-		e.q = hlib.Pick(rng, 0, 500, 500, 900, 990, 999, 1000)
+		e.q = hlib.Pick(rng, 0, 5, 10, 500, 500, 900, 990, 999, 1000) // tenths of a percent: 0.5 and 1.0 are percentiles, not fractions
 		e.tn, e.td = hlib.Pick(rng, 0, 1, 2, 5, 10, 50, 100, 1000, 10000), 1
 	}
 	return e
